@@ -22,19 +22,35 @@ NA = {
 
 K_FIFO = "not decided: its contract is stated in DESIGN §4 over the per-transaction kernel (Updater::index_transaction_sats, U-FIFO); the extracted kernel did not finish under Kani/CBMC even for 2 ranges x 2 outputs (20 min) - chains of growing Vec<u8> with symbolic lengths are the measured cost driver (DESIGN §0.6) - and Verus rejects its iterator-adapter code; a smaller stand-in would be a model, not the code. The storage encodings it writes and reads are under contract in C35"
 K_INS = "not decided: lives in InscriptionUpdater::index_inscriptions over redb tables, HashMaps and Vec sorting; the function is outside Verus's subset and was not brought under Kani in the budget (engine E2 exists since round 3 but only value-level files and small extracted kernels fit it; DESIGN §0.2, §6)"
-K_ARTIFACT = "not decided: the deciding functions (RuneUpdater::index_runes, etched, create_rune_entry) all start with `match artifact`, and Kani 0.68 aborts with an internal compiler error on every read of the discriminant of ordinals::Artifact (niche in the 128-bit tag of an Option<u128>; measured with probe harnesses, DESIGN §0.6); Verus rejects the same text (redb tables, HashMap). The contracts are written (contracts/ord/rune_updater_etching_contracts.rs.disabled) but cannot be checked with the installed tools"
+K_ARTIFACT = "not decided: the deciding function RuneUpdater::index_runes (edict allocation, pointer, burns) cannot be taken by either verifier - Kani 0.68 aborts with an internal compiler error on every read of the discriminant of ordinals::Artifact (niche in the 128-bit tag of an Option<u128>; measured with probe harnesses, DESIGN §0.6), and Verus rejects its HashMap / closure / iterator-adapter code; the kernel functions around it are under contract (C10 mint, C11 etched / create_rune_entry, C08 unallocated)"
 K_ORD = "not decided: the functions live in the `ord` crate outside the value-level files and small kernels that engine E2 reaches (DESIGN §0.2, §6)"
 UNBUILT = {
  "C01": K_FIFO, "C02": K_FIFO, "C03": K_FIFO + "; the inscription-movement half is in index_inscriptions (see C04)",
  "C04": K_INS + "; the merge of pseudo-output entries and the inscription-list encoding it relies on are under contract in C35", "C05": K_INS, "C06": K_INS, "C07": K_INS,
  "C09": K_ARTIFACT + ". The arithmetic it uses (Lot, even split) is under contract in C08",
- "C11": K_ARTIFACT + ". Rune::reserved / is_reserved / commitment are proved under C32, the unlock schedule under C33",
  "C16": "not decided as stated (whole-chain totality): panic-freedom obligations are discharged for the functions under contract in C25/C26 (varint, Runestone::integers), C27 (from_value, pointer), C31 (parsers), C35 (decoders of stored values) and C10/C08 (mint, update, unallocated never error), but envelope parsing, Properties::from_cbor, index_inscriptions and index_runes are not under contract, so the property as a whole is not claimed",
  "C20": K_ORD + "; TransactionBuilder is ~1000 lines over BTreeMap/Vec state with f64 fee arithmetic",
  "C37": "not decided: Kani 0.68 aborts on any read of the discriminant of ord's Event enum (same internal compiler error as for Artifact, DESIGN §0.6), so a harness can count events but not inspect them; the emitting functions index_runes / index_inscriptions are not under contract either",
 }
 
 TEXT = json.load(open(os.path.join(VERIF, "tools/manifest_text.json")))
+
+def technique_of(phs):
+    engs = {h["engine"] for h in phs}
+    parts = []
+    if "ev" in engs:
+        parts.append("Verus/Z3 deductive proof: requires/ensures, loop invariants and lemmas spliced onto the real function text extracted each run (unbounded)")
+    if engs & {"e1", "e1s", "e2"}:
+        where = []
+        if "e1" in engs:
+            where.append("the real `ordinals` crate as it ships")
+        if "e1s" in engs:
+            where.append("the `ordinals` crate with std HashMap/VecDeque redirected to list shims")
+        if "e2" in engs:
+            where.append("real `ord` files / verbatim-extracted items under a substitute crate root")
+        parts.append("Kani/CBMC contract harnesses (assume precondition, call the real function, assert the postcondition; callees under contract via verified stubs, ghost logs and recording stubs) on " + ", ".join(where))
+    return "contract-based deductive verification of the real code: " + "; ".join(parts)
+
 
 def gen():
     hs = main.discover()
@@ -56,7 +72,7 @@ def gen():
             "engine": "+".join(sorted({h["engine"] for h in phs})),
             "level_claimed": {"category": "proof" if complete else "other", "text": t["text"], "design_ref": t.get("design_ref", "DESIGN.md §4 " + p)},
             "level_note": t["note"],
-            "technique": t.get("technique", "contract-based deductive verification: Kani/CBMC proof harnesses (pre/postconditions) on the real functions"),
+            "technique": t.get("technique", technique_of(phs)),
         })
     na = []
     for p in props:
